@@ -3,6 +3,7 @@ package c16
 import (
 	"errors"
 	"fmt"
+	"strings"
 	"time"
 
 	"verif/internal/mon"
@@ -61,6 +62,11 @@ func runUnblock(d Desc) mon.Result {
 		time.Sleep(20 * time.Millisecond)
 		closed = true
 		closeReturned = l.closeTransport(true, 5*time.Second)
+	case "peer-half-close", "peer-half-close-status":
+		if l.halfClose == nil {
+			return mon.Result{Verdict: mon.Inconclusive, Detail: "harness: no half close for " + d.T}
+		}
+		l.halfClose(d.How == "peer-half-close-status")
 	default:
 		l.killPeer()
 	}
@@ -75,7 +81,9 @@ func runUnblock(d Desc) mon.Result {
 			}
 		}
 		what := "the peer went away"
-		if d.How != "peer-gone" {
+		if strings.HasPrefix(d.How, "peer-half-close") {
+			what = "the peer ended its direction of the session (CHANNEL_EOF, no CHANNEL_CLOSE, connection kept)"
+		} else if d.How != "peer-gone" {
 			what = fmt.Sprintf("Transport.Close(true) (returned=%v)", closeReturned)
 		}
 		if d.How == "close-peer-hung" {
@@ -84,7 +92,8 @@ func runUnblock(d Desc) mon.Result {
 		return mon.Result{Verdict: mon.Violated, Key: key, NonTrivial: true,
 			Detail: fmt.Sprintf("%s rs=%d: a goroutine blocked in Transport.Read did not return within 5 s after %s", d.T, d.ReadSize, what)}
 	}
-	obs := map[string]int64{"unblock_cases": 1, "reads_released_by_" + map[string]string{"close": "close", "peer-gone": "peer_gone", "close-peer-hung": "close_with_a_hung_peer"}[d.How]: 1}
+	obs := map[string]int64{"unblock_cases": 1, "reads_released_by_" + map[string]string{"close": "close", "peer-gone": "peer_gone", "close-peer-hung": "close_with_a_hung_peer",
+		"peer-half-close": "peer_half_close", "peer-half-close-status": "peer_half_close"}[d.How]: 1}
 	return mon.Result{Verdict: mon.Held, NonTrivial: true, Obs: obs,
 		Tags:   []string{"transport=" + d.T, "unblock=" + d.How, fmt.Sprintf("readsize=%d", d.ReadSize)},
 		Sample: map[string]interface{}{"transport": d.T, "how": d.How, "released_after_ms": took.Milliseconds(), "reader_returned": fmt.Sprint(cs.err)}}
